@@ -428,5 +428,37 @@ fn retrieve_index__canary(
     query: &[QueryPart<'_>],
 ) -> (res: QueryResult)
 { assert(false); vstd::pervasive::unreached() }
+// ---- fn guard/src/rules/eval_context.rs::get_expected_number_of_args
+impl FunctionName {
+    pub fn get_expected_number_of_args(&self) -> (res: usize)
+    ensures
+        (*self == FunctionName::Substring || *self == FunctionName::RegexReplace) ==> res == 3,
+        *self == FunctionName::Join ==> res == 2,
+        *self == FunctionName::Now ==> res == 0,
+        !(*self == FunctionName::Substring || *self == FunctionName::RegexReplace || *self == FunctionName::Join || *self == FunctionName::Now) ==> res == 1,
+{
+        match self {
+            FunctionName::Join => 2,
+            FunctionName::Substring | FunctionName::RegexReplace => 3,
+            FunctionName::Count
+            | FunctionName::JsonParse
+            | FunctionName::ToUpper
+            | FunctionName::ToLower
+            | FunctionName::UrlDecode
+            | FunctionName::ParseString
+            | FunctionName::ParseBoolean
+            | FunctionName::ParseFloat
+            | FunctionName::ParseInt
+            | FunctionName::ParseEpoch
+            | FunctionName::ParseChar => 1,
+            FunctionName::Now => 0,
+        }
+    }
+}
+// ---- canary canary:pre:get_expected_number_of_args
+impl FunctionName {
+    pub fn get_expected_number_of_args__canary(&self) -> (res: usize)
+{ assert(false); vstd::pervasive::unreached() }
+}
 } // verus!
 fn main() {}
